@@ -206,6 +206,13 @@ def dispatch(engine, st, callee, args, dest_ty):
     if r is not NotImplemented:
         return r
     q = split_qualified(callee)
+    # cross-crate: a function or inherent/trait method of a type that lives in a sibling crate is looked up in that crate's MIR
+    for prefix, other in getattr(engine, 'siblings', {}).items():
+        if other is engine:
+            continue
+        target = q[0].lstrip('&').replace('mut ', '').strip() if q else callee
+        if target.startswith(prefix + '::') and not target.startswith('dyn '):
+            return dispatch(other, st, callee.replace(prefix + '::', ''), args, dest_ty)
     if q:
         ty, trait, method = q
         tb = base_type(trait) if trait else None
@@ -229,6 +236,11 @@ def dispatch(engine, st, callee, args, dest_ty):
         # state accessors generated by the custom_*_state!/custom_dimension! macros
         if tyb in ('RouteState', 'SolutionState', 'Dimensions'):
             return state_accessor(engine, st, tyb, tb, method, args, dest_ty)
+        if '::' in method and '{' not in method:
+            # a function item nested in a method body: `<T as Trait>::method::inner`
+            cands = [f for n, f in engine.prog.functions.items() if n.endswith('>::' + method) and (engine.prog.impl_header(f) or (None, None)) == (tb, tyb)]
+            if len(cands) == 1:
+                return engine.exec_fn(st, cands[0], args)
         # user trait impl
         fns = engine.prog.find_method(tyb, method, trait=tb, is_ref=ty.strip().startswith('&'))
         if len(fns) == 1:
@@ -262,6 +274,11 @@ def dispatch(engine, st, callee, args, dest_ty):
         fn = engine.prog.find_free(name)
     except Exception:
         fn = None
+    if fn is None and len(segs) >= 2:
+        # called through a re-export path (`pub use`): the defining module differs; accept a unique free function of that name
+        cands = [f for n, f in engine.prog.functions.items() if n.split('::')[-1] == segs[-1] and f.impl_loc is None and '{closure' not in n]
+        if len(cands) == 1:
+            fn = cands[0]
     if fn is not None:
         return engine.exec_fn(st, fn, args)
     raise Inconclusive(f'unbound call {callee}')
@@ -338,6 +355,9 @@ def std_trait(engine, st, ty, tyb, tb, method, args, dest_ty, trait=None):
         if isinstance(inner, VecV):
             return VecV([copy_value(x) for x in inner.items], inner.ty)
         return copy_value(inner)
+    if tb == 'Clone' and method == 'clone_from' and isinstance(args[0], RefV):
+        args[0].store(copy_value(unref(args[1])))
+        return UnitV()
     if tb == 'Default' and method == 'default' and tyb == 'String':
         return Opaque('""')
     if tb == 'Default' and method == 'default':
@@ -417,6 +437,11 @@ def std_trait(engine, st, ty, tyb, tb, method, args, dest_ty, trait=None):
         if isinstance(a, Opaque) and isinstance(b, Opaque):
             t = a.name == b.name
             return BV(t if method == 'eq' else not t)
+        if isinstance(a, Agg) and isinstance(b, Agg) and a.ty == b.ty == 'FormattedTime':
+            # strings produced by an (injective) formatting stub: equal iff the formatted values are equal
+            x, y = a.fields[0], b.fields[0]
+            t = zs(z3.And(x.m == y.m, z3.Or(x.m, x.v == y.v)))
+            return BV(t if method == 'eq' else zs(z3.Not(t)))
     if tb == 'From' and method == 'from':
         return args[0]
     if tb == 'Into' and method == 'into':
@@ -455,6 +480,12 @@ def iterator_method(engine, st, method, args, dest_ty):
             return IterV(list(v.items))
         if isinstance(deref_all(v), IterV):
             return deref_all(v)
+        if isinstance(v, EnumV) and 'Option' in v.ty.split('<')[0]:
+            # Option<T> as IntoIterator: zero or one item
+            var = v.variant()
+            if var is None:
+                var = 1 if engine.split_bool(st, v.discr == 1) else 0
+            return IterV([v.payload[1][0]] if var == 1 else [])
         try:
             return as_iter(v)
         except Inconclusive:
@@ -478,6 +509,11 @@ def iterator_method(engine, st, method, args, dest_ty):
                 return EnumV(dest_ty or 'ControlFlow', 1, {1: [r.payload[1][0]]})
             acc = r.payload[0][0]
         raise Inconclusive('unbounded try_fold did not terminate within 64 steps')
+    if method == 'zip' and isinstance(deref_all(args[0]), Agg) and deref_all(args[0]).ty.endswith('RangeFrom'):
+        # `(n..).zip(iter)`: as long as the other side
+        lo = deref_all(args[0]).fields[0]
+        other = iterator_method(engine, st, 'into_iter', [args[1]], '')
+        return IterV([Agg('tuple', [IV(lo.concrete() + i, lo.ty), b]) for i, b in enumerate(other.items)])
     it = as_iter(args[0])
     if method == 'skip':
         n = args[1].concrete()
@@ -881,11 +917,11 @@ def seq_method(engine, st, method, args, dest_ty):
             opts.append((z3.And(*conds) if conds else z3.BoolVal(True), ('err', p)))
         kind, idx = engine.choose(st, opts)
         return EnumV(dest_ty or 'Result', 0 if kind == 'ok' else 1, {(0 if kind == 'ok' else 1): [IV(idx)]})
-    if method in ('first', 'last'):
+    if method in ('first', 'last', 'first_mut', 'last_mut'):
         n = seq_len(s)
         if n == 0:
             return mk_option(False, ty=dest_ty)
-        return mk_option(True, RefV(s, 0 if method == 'first' else n - 1), ty=dest_ty)
+        return mk_option(True, RefV(s, 0 if method.startswith('first') else n - 1, method.endswith('_mut')), ty=dest_ty)
     if method in ('iter', 'iter_mut'):
         return IterV([RefV(s, i, method == 'iter_mut') for i in range(seq_len(s))])
     if method == 'windows':
